@@ -40,6 +40,8 @@ func (o kop) String() string {
 		return fmt.Sprintf("AddWithCount(%v,%v)", o.V, o.W)
 	case "bad":
 		return fmt.Sprintf("AddWithCount(%v,%v)!", o.V, o.W)
+	case "badmerge":
+		return fmt.Sprintf("MergeWith(mismatching mapping, otherkind=%v)!", o.Omit)
 	case "merge", "decmerge":
 		return fmt.Sprintf("%s(pos=%s neg=%s exact=%v %v)", o.Kind, o.Other.cfg.pos, o.Other.cfg.neg, o.Other.cfg.exact, o.Other.ops)
 	case "reweight":
@@ -351,6 +353,32 @@ func (u *skUT) apply(op kop) string {
 			return fmt.Sprintf("AddWithCount(%v,%v) was accepted", op.V, op.W)
 		}
 		u.cl.label("rejected-add")
+	case "badmerge":
+		// an argument with another mapping (other kind, or same kind and 30% coarser): the merge must be refused and
+		// nothing of the argument may reach the receiver - statistics included (the invariant that follows compares
+		// the receiver with its unchanged model)
+		ospec := u.cfg.spec
+		if op.Omit {
+			ospec = gen.MapSpec{Kind: map[string]string{"log": "cubic", "linear": "log", "cubic": "linear"}[gen.KindOf(u.cfg.m)], FromAlpha: true, Alpha: 0.02}
+		} else {
+			ospec = gen.MapSpec{Kind: gen.KindOf(u.cfg.m), FromAlpha: true, Alpha: math.Min(0.9, u.cfg.m.RelativeAccuracy()*1.3)}
+		}
+		om, err := ospec.Build()
+		if err != nil || om.Equals(u.cfg.m) {
+			return ""
+		}
+		oc := skCfg{spec: ospec, m: om, pos: u.cfg.pos, neg: u.cfg.neg, exact: u.cfg.exact}
+		arg := oc.new()
+		for _, v := range []float64{1000, -100, 3, 0} {
+			_ = arg.AddWithCount(v, 3)
+		}
+		if err := u.s.MergeWith(arg); err == nil {
+			return fmt.Sprintf("MergeWith a sketch whose mapping is %s was accepted", ospec)
+		}
+		if arg.GetCount() != 12 {
+			return fmt.Sprintf("the refused MergeWith changed its argument: count %v", arg.GetCount())
+		}
+		u.cl.label("refused-merge")
 	case "merge", "decmerge":
 		arg, ak := op.Other.build()
 		oc := op.Other.cfg
@@ -506,6 +534,8 @@ func (g *kopGen) drawOp(t *rapid.T, u *skUT) kop {
 		return kop{Kind: "deczeros", Stream: w.B}
 	case "bad":
 		return g.drawBad(t)
+	case "badmerge":
+		return kop{Kind: "badmerge", Omit: rapid.Bool().Draw(t, "otherkind")}
 	case "merge", "decmerge":
 		exact := u.cfg.exact
 		if kind == "decmerge" && !exact && rapid.IntRange(0, 3).Draw(t, "argexact") == 0 {
